@@ -213,6 +213,11 @@ End Scan.
 (* ------------------------------------------------------------------ the two public generators *)
 Definition number {A} (l : list A) : list (nat * A) := combine (seq 0 (length l)) l.
 Definition nthr (rs : list rect) (i : nat) : rect := nth i rs rect0.
+(* v->r->width() etc. for node index i; indices are always in range, the fallback 0 is never used *)
+Definition lenOf (f : rect -> Q) (rs : list rect) (i : nat) : Q :=
+  match nth_error rs i with Some r => f r | None => 0 end.
+Definition ovOf (f : rect -> rect -> Q) (rs : list rect) (u v : nat) : Q :=
+  match nth_error rs u, nth_error rs v with Some a, Some b => f a b | _, _ => 0 end.
 
 Section Gen.
   Variable mklt : list Q -> nat -> nat -> bool.   (* CmpNodePos given the Node::pos values *)
@@ -232,9 +237,9 @@ Section Gen.
     | None => None
     | Some sorted =>
         let lt := mklt (posX rs) in
-        let len := fun i => width xb (nthr rs i) in
-        let oX := fun u v => overlapX xb (nthr rs u) (nthr rs v) in
-        let oY := fun u v => overlapY yb (nthr rs u) (nthr rs v) in
+        let len := lenOf (width xb) rs in
+        let oX := ovOf (overlapX xb) rs in
+        let oY := ovOf (overlapY yb) rs in
         Some (rev (out (if useNeighbourLists
                         then run_nbr lt len oX oY (length rs) sorted
                         else run_plain lt len (length rs) sorted)))
@@ -246,7 +251,7 @@ Section Gen.
     | None => None
     | Some sorted =>
         let lt := mklt (posY rs) in
-        let len := fun i => height yb (nthr rs i) in
+        let len := lenOf (height yb) rs in
         Some (rev (out (run_plain lt len (length rs) sorted)))
     end.
 End Gen.
